@@ -26,36 +26,39 @@ func init() { engines["C04"] = c04 }
 // parking lets method bodies wait until a releaser goroutine frees them in PRNG order,
 // so that replies cross (out-of-order completion across objects and connections).
 type parking struct {
-	mu     sync.Mutex
-	parked []chan struct{}
-	rng    *rand.Rand
-	prob   int // percent of calls that park
-	stop   chan struct{}
-	done   chan struct{}
+	mu      sync.Mutex
+	parked  []chan struct{}
+	rng     *rand.Rand
+	prob    int // percent of calls that park
+	stop    chan struct{}
+	done    chan struct{}
+	cond    *sync.Cond
+	stopped bool
 }
 
 func newParking(seed int64, prob int) *parking {
 	p := &parking{rng: rand.New(rand.NewSource(seed)), prob: prob, stop: make(chan struct{}), done: make(chan struct{})}
+	p.cond = sync.NewCond(&p.mu)
 	go func() {
 		defer close(p.done)
 		for {
-			select {
-			case <-p.stop:
-				p.mu.Lock()
+			p.mu.Lock()
+			// nothing parked: wait on the condition (a goroutine that only sleeps would keep the
+			// quiescence detector from ever deciding that the calls under test are stuck)
+			for len(p.parked) == 0 && !p.stopped {
+				p.cond.Wait()
+			}
+			if p.stopped {
 				for _, ch := range p.parked {
 					close(ch)
 				}
 				p.parked = nil
 				p.mu.Unlock()
 				return
-			default:
 			}
-			p.mu.Lock()
-			if n := len(p.parked); n > 0 {
-				k := p.rng.Intn(n)
-				close(p.parked[k])
-				p.parked = append(p.parked[:k], p.parked[k+1:]...)
-			}
+			k := p.rng.Intn(len(p.parked))
+			close(p.parked[k])
+			p.parked = append(p.parked[:k], p.parked[k+1:]...)
 			d := time.Duration(20+p.rng.Intn(200)) * time.Microsecond
 			p.mu.Unlock()
 			time.Sleep(d)
@@ -66,17 +69,24 @@ func newParking(seed int64, prob int) *parking {
 
 func (p *parking) gate(token uint64) {
 	p.mu.Lock()
-	if p.rng.Intn(100) >= p.prob {
+	if p.stopped || p.rng.Intn(100) >= p.prob {
 		p.mu.Unlock()
 		return
 	}
 	ch := make(chan struct{})
 	p.parked = append(p.parked, ch)
+	p.cond.Signal()
 	p.mu.Unlock()
 	<-ch
 }
 
-func (p *parking) close() { close(p.stop); <-p.done }
+func (p *parking) close() {
+	p.mu.Lock()
+	p.stopped = true
+	p.cond.Broadcast()
+	p.mu.Unlock()
+	<-p.done
+}
 
 type callRec struct {
 	token    uint64
